@@ -156,6 +156,25 @@ func decode(c *mon.Ctx, e *ref.EBP) {
 	if !bytes.Equal(in, snap) {
 		c.Fail("decode:input-modified", "decoding or re-encoding modified the input bytes", wit{mon.Hex(snap), shape(e), ""})
 	}
+	// bytes returned by Data() stay what they were when other EBPs (of either flavour) are encoded later
+	kept := append([]byte{}, out...)
+	o1 := ebp.CreateComcastEBP()
+	o1.SetTimeFlag(true)
+	o1.SetSapFlag(true)
+	o1.SetSap(0x77)
+	o1.ReservedBytes = bytes.Repeat([]byte{0xEE}, len(out))
+	_ = o1.Data()
+	o2 := ebp.CreateCableLabsEbp()
+	o2.SetGroupingFlag(true)
+	o2.Grouping = bytes.Repeat([]byte{0x11}, 8)
+	o2.ReservedBytes = bytes.Repeat([]byte{0xDD}, len(out))
+	_ = o2.Data()
+	again := x.Data()
+	if !bytes.Equal(out, kept) {
+		c.Fail("reencode:earlier-result-overwritten", "the slice returned by Data() changed when other EBPs were encoded afterwards", wit{mon.Hex(snap), shape(e), "now " + mon.Hex(out)})
+	} else if !bytes.Equal(again, snap) {
+		c.Fail("reencode:second-encoding-differs", "encoding the same object a second time gives different bytes", wit{mon.Hex(snap), shape(e), mon.Hex(again)})
+	}
 }
 
 // built creates the object through the setter API and checks encode -> decode.
